@@ -55,6 +55,21 @@ def run_check(prop: str, tier: str, seed: int, repo: str, replay: str = None) ->
     except Exception as exc:  # a crash of the checker is never a violation
         traceback.print_exc()
         run.error('engine', '-', '-', repr(exc), f'checker crashed: {exc!r}')
+    if ctx.thorough and not os.environ.get('DZNVERIF_NO_SELFVALIDATION') and not run.has_new_violation() \
+            and not run.has_error():
+        # checker self-validation: replay the seeded-fault catalogue of this property against the current tree
+        try:
+            from .selftest import validate_for
+            res = validate_for(prop, repo, int(os.environ.get('DZNVERIF_JOBS', '16')))
+            bad = res.pop('misbehaved')
+            run.stats['checker_self_validation'] = res
+            for b in bad:
+                run.error('self-validation', '-', '-', b, 'a catalogue entry that applies to this tree is not judged as recorded: '
+                          'the checker lost a rule (seeded fault not reported) or raises a false alarm (behaviour-preserving '
+                          'variant reported)')
+        except Exception as exc:
+            traceback.print_exc()
+            run.error('self-validation', '-', '-', repr(exc), f'self-validation crashed: {exc!r}')
     run.stats.setdefault('modules_parsed', len(ctx.prog.modules))
     run.stats.setdefault('functions_in_model', len(ctx.prog.functions))
     run.stats.setdefault('classes_in_model', len(ctx.prog.classes))
